@@ -860,9 +860,6 @@ class IrGenerator:
             # fallback to nested if statements
             #
 
-            if inp.returns():
-                assert inp.returns_always()
-
             if inp._default is not None:
                 rewritten = inp._default
             else:
